@@ -1706,19 +1706,233 @@ pub fn mode_grow(seed: u64, thorough: bool) {
     }
 }
 
+
+/// do two generic Hamiltonian specs differ clearly (some entry by >= 1e-9, or in shape)?  `None` = they
+/// differ, but only below the library's documented absolute tolerance (accepted by design, finding F23)
+fn gen_specs_differ(a: &[(bool, Vec<f64>, Vec<usize>)], b: &[(bool, Vec<f64>, Vec<usize>)]) -> Option<bool> {
+    if a.len() != b.len() {
+        return Some(true);
+    }
+    let mut small = false;
+    for (x, y) in a.iter().zip(b.iter()) {
+        if x.0 != y.0 || x.2 != y.2 || x.1.len() != y.1.len() {
+            return Some(true);
+        }
+        for (u, v) in x.1.iter().zip(y.1.iter()) {
+            let d = (u - v).abs();
+            if d >= 1e-9 {
+                return Some(true);
+            }
+            if d > 0.0 {
+                small = true;
+            }
+        }
+    }
+    if small { None } else { Some(false) }
+}
+
+/// Admission of generic replicas to one ladder: the container must refuse a replica whose Hamiltonian
+/// differs from its predecessor's (same bond structure and zero pattern, other magnitudes — also through
+/// `into_qmc` of Ising samplers with different couplings). If a mixed ladder IS admitted, it is
+/// equilibrated and stepped like any other ladder, so that the swap-probability oracle (ratio recomputed
+/// from the strings with each side's own matrices) judges the exchanges.
+pub fn mode_generic_mixed(seed: u64, thorough: bool) {
+    let mut g = SplitMix64::new(seed ^ 0x9e1);
+    let runs = if thorough { 200 } else { 40 };
+    for l in 0..runs {
+        let n = 2 + (l % 5) as usize;
+        let nvars = 2 + g.below(2) as usize;
+        let base = random_gen_ham(&mut g, nvars);
+        let flavour = l % 4; // 0: all equal, 1: scaled magnitudes, 2: one term changed, 3: differences far below EPSILON (control)
+        let same_beta = g.coin();
+        let b0 = g.range(2, 8) as f64 / 4.0;
+        let first_diff = 1 + g.below((n - 1) as u64) as usize;
+        let mut specs: Vec<GenSpec> = vec![];
+        for i in 0..n {
+            let mut h = base.clone();
+            if i >= first_diff {
+                match flavour {
+                    1 => {
+                        let f = 1.0 + (1 + i) as f64 / 4.0;
+                        for (_, m, _) in h.iter_mut() {
+                            for x in m.iter_mut() {
+                                *x *= f; // zeros stay zeros: same zero pattern
+                            }
+                        }
+                    }
+                    2 => {
+                        let k = g.below(h.len() as u64) as usize;
+                        for x in h[k].1.iter_mut() {
+                            if *x != 0.0 {
+                                *x += 0.25 * (1 + i) as f64;
+                            }
+                        }
+                    }
+                    3 => {
+                        for (_, m, _) in h.iter_mut() {
+                            for x in m.iter_mut() {
+                                if *x != 0.0 {
+                                    *x += (2.0f64).powi(-60);
+                                }
+                            }
+                        }
+                    }
+                    _ => {}
+                }
+            }
+            specs.push(GenSpec { nvars, inters: h, beta: if same_beta { b0 } else { g.range(1, 10) as f64 / 4.0 }, loops: l % 3 == 0, heatbath: false });
+        }
+        let reps: Result<Vec<(GenQ, f64)>, String> = specs.iter().map(|s| make_gen(s, g.next()).map(|q| (q, s.beta))).collect();
+        let reps = match reps {
+            Ok(r) => r,
+            Err(_) => {
+                stat("gmix.ham_rejected", 1);
+                continue;
+            }
+        };
+        // expected verdict, from the specs alone
+        let mut expect: Option<Option<usize>> = Some(None); // Some(None) = accepted, Some(Some(k)) = refused at k, None = either
+        for k in 1..n {
+            match gen_specs_differ(&specs[k - 1].inters, &specs[k].inters) {
+                Some(true) => {
+                    expect = Some(Some(k));
+                    break;
+                }
+                Some(false) => {}
+                None => {
+                    expect = None;
+                    break;
+                }
+            }
+        }
+        let descs: Vec<String> = reps.iter().map(|(q, _)| q.describe().split(' ').next().unwrap_or("-").to_string()).collect();
+        let log = new_log();
+        let mut tc: TC<GenQ> = TemperingContainer::new(RecRng::new(0));
+        let mut refused: Option<usize> = None;
+        let mut direct_ok = true; // can_swap_graphs called directly on neighbours agrees with the container
+        let mut prev: Option<GenQ> = None;
+        for (id, (q, beta)) in reps.into_iter().enumerate() {
+            let direct = prev.as_ref().map(|p| p.can_swap_graphs(&q).is_ok()).unwrap_or(true);
+            let qc = q.clone();
+            let r = tc.add_qmc_stepper(Spy { q, id, log: log.clone() }, beta);
+            if r.is_ok() != direct {
+                direct_ok = false;
+            }
+            if r.is_err() {
+                refused = Some(id);
+                break;
+            }
+            prev = Some(qc);
+        }
+        let verdict = match refused {
+            Some(k) => format!("refused@{}", k),
+            None => "accepted".to_string(),
+        };
+        let mut oracle = Ok(());
+        match expect {
+            Some(e) if e != refused => {
+                oracle = Err(match e {
+                    Some(k) => format!(
+                        "generic replica {} has a Hamiltonian that differs from its predecessor's (flavour {}: same bond structure, other magnitudes) and must be refused by add_qmc_stepper, but the ladder was {}",
+                        k, flavour, verdict
+                    ),
+                    None => format!("generic replicas with identical Hamiltonians must be admitted, but the ladder was {}", verdict),
+                });
+            }
+            _ => {}
+        }
+        if !direct_ok && oracle.is_ok() {
+            oracle = Err("can_swap_graphs called directly disagrees with add_qmc_stepper".into());
+        }
+        stat(&format!("gmix.flavour_{}.{}", flavour, if refused.is_some() { "refused" } else { "admitted" }), 1);
+        emit(true, &format!("gadmit {}", descs.join(" ")), &verdict, Some(oracle));
+        // an admitted ladder is stepped like any other one (on the unchanged library: equal Hamiltonians, or the
+        // sub-EPSILON control)
+        if refused.is_none() && flavour != 3 {
+            if equilibrate(&mut tc, &mut g).is_err() {
+                continue;
+            }
+            let mut hist = hist_of(n);
+            for s in 0..2 {
+                match step_case(&tc, g.next(), true, &mut hist) {
+                    Ok((next, _)) => {
+                        tc = next;
+                        let l2 = new_log();
+                        set_log(&mut tc, &l2);
+                    }
+                    Err(e) => {
+                        emit(true, &format!("sw g 1 {} 0 - {} {}", n, hist, describe_container(&tc)), "panic", Some(Err(format!("tempering step panicked: {}", e))));
+                        break;
+                    }
+                }
+                if s == 0 {
+                    let _ = catch(|| tc.timesteps(2));
+                }
+            }
+        }
+    }
+    // the same through `into_qmc`: Ising samplers with the same graph and different couplings / fields
+    let iruns = if thorough { 120 } else { 24 };
+    for l in 0..iruns {
+        let kind = if l % 3 == 0 { 0 } else { 1 + g.below(2) }; // 0: beta ladder (equal H), 1: J ladder, 2: Gamma ladder
+        let specs = ising_ladder_base(&mut g, 2, kind, false);
+        if specs.iter().any(|s| s.h != 0.0) {
+            continue; // h != 0 conversions are C15's subject
+        }
+        let (a, b) = (make_ising(&specs[0], g.next()), make_ising(&specs[1], g.next()));
+        let differ = specs[0].edges != specs[1].edges || specs[0].gamma != specs[1].gamma;
+        let (qa, qb): (GenQ, GenQ) = match catch(move || (a.into_qmc(), b.into_qmc())) {
+            Ok(x) => x,
+            Err(_) => {
+                stat("gmix.into_qmc_panicked", 1);
+                continue;
+            }
+        };
+        let can = qa.can_swap_graphs(&qb).is_ok();
+        let eq = qa.ham_eq(&qb);
+        let mut tc: TemperingContainer<RecRng, GenQ> = TemperingContainer::new(RecRng::new(0));
+        let first = tc.add_qmc_stepper(qa.clone(), specs[0].beta).is_ok();
+        let second = tc.add_qmc_stepper(qb.clone(), specs[1].beta).is_ok();
+        let mut oracle = Ok(());
+        if !first || (can == differ) || (second != can) || (eq != can) {
+            oracle = Err(format!(
+                "into_qmc of Ising samplers whose Hamiltonians {}: can_swap_graphs = {}, ham_eq = {}, container add = {}",
+                if differ { "differ" } else { "are equal" },
+                can,
+                eq,
+                second
+            ));
+        }
+        let d0 = qa.describe();
+        let d1 = qb.describe();
+        stat(if can { "gmix.into_qmc.admitted" } else { "gmix.into_qmc.refused" }, 1);
+        emit(
+            true,
+            &format!("gadmit {} {}", d0.split(' ').next().unwrap_or("-"), d1.split(' ').next().unwrap_or("-")),
+            if second { "accepted" } else { "refused@1" },
+            Some(oracle),
+        );
+    }
+}
+
 #[allow(dead_code)]
 fn main() {
     quiet_panics();
     let a = args();
     let r = catch(|| match a.mode.as_str() {
         "ising" => mode_ising_steps(a.seed, a.thorough),
-        "generic" => mode_generic_steps(a.seed, a.thorough),
+        "generic" => {
+            mode_generic_steps(a.seed, a.thorough);
+            mode_generic_mixed(a.seed, a.thorough);
+        }
+        "gmixed" => mode_generic_mixed(a.seed, a.thorough),
         "pairs" => mode_pairs(a.seed, a.thorough),
         "mismatch" => mode_mismatch(a.seed),
         "grow" => mode_grow(a.seed, a.thorough),
         _ => {
             mode_ising_steps(a.seed, a.thorough);
             mode_generic_steps(a.seed, a.thorough);
+            mode_generic_mixed(a.seed, a.thorough);
             mode_pairs(a.seed, a.thorough);
             mode_mismatch(a.seed);
             mode_grow(a.seed, a.thorough);
